@@ -2014,6 +2014,34 @@ def clean_dictionary(ddct):
     for key in ["cxx_header", "namespace"]:
         if key in ddct and ddct[key] is None:
             ddct[key] = ""
+    if "cpp_if" in ddct and ddct["cpp_if"] is None:
+        del ddct["cpp_if"]
+    for key in ["cxx_header", "namespace", "cpp_if", "library"]:
+        if key in ddct and not isinstance(ddct[key], str):
+            raise RuntimeError(
+                "{} must be a string, found '{}'".format(key, ddct[key]))
+
+    # Groups of named values.
+    for key in ["attrs", "fattrs", "fields", "format", "options",
+                "fstatements", "splicer", "splicer_code", "doxygen",
+                "python", "setup"]:
+        if key not in ddct:
+            continue
+        if ddct[key] is None:
+            # A blank group is the same as no group.
+            del ddct[key]
+        elif not isinstance(ddct[key], dict):
+            raise RuntimeError(
+                "{} must be a dictionary, found '{}'".format(key, ddct[key]))
+    for key in ["attrs", "fstatements"]:
+        # groups of groups
+        if key not in ddct:
+            continue
+        for name, value in ddct[key].items():
+            if name != "__line__" and not isinstance(value, dict):
+                raise RuntimeError(
+                    "{} for '{}' must be a dictionary, found '{}'"
+                    .format(key, name, value))
 
     if "default_arg_suffix" in ddct:
         default_arg_suffix = ddct["default_arg_suffix"]
